@@ -248,7 +248,9 @@ def classify_call(P, fn, s):
                 return '4 memcpy(dst, src, strchr(src,c)-src), extent(dst)>=extent(src)', 'dst=%d src=%d' % (ex[0], sex[0])
         return None, 'unrecognised %s(%s, %s, %s)' % (name, sx(a[0]), sx(a[1]), sx(a[2]))
     if name in ('snprintf', 'vsnprintf') and len(a) >= 3:
-        d, n = a[0], a[1]
+        d, n = fn.expand_local(a[0], s), fn.expand_local(a[1], s)
+        if const_of(n) is None and n.get('k') == 'bin' and n['op'] == '-' and const_of(n['l']) is None:
+            pass
         ex = extent_of(fn, d)
         if ex is not None and const_of(n) is not None:
             room = (ex[0] - ex[1]) * ex[2]
